@@ -1,15 +1,107 @@
 package main
 
 import (
+	"flag"
 	"fmt"
-	"golang.org/x/tools/go/packages"
+	"os"
+	"sort"
+	"strings"
+	"time"
 )
 
 func main() {
-	cfg := &packages.Config{Mode: packages.LoadAllSyntax, Dir: "/repo", BuildFlags: []string{"-tags=verif"}}
-	pkgs, err := packages.Load(cfg, "./...")
-	fmt.Println(len(pkgs), err)
-	for _, p := range pkgs {
-		fmt.Println(p.PkgPath, len(p.Syntax), p.Errors)
+	if len(os.Args) < 2 {
+		fmt.Fprintln(os.Stderr, "usage: govc vc <pkgpath.Func>... | check <property> [--tier quick|thorough] | replay <path> | selftest")
+		os.Exit(2)
+	}
+	switch os.Args[1] {
+	case "vc":
+		cmdVC(os.Args[2:])
+	case "check":
+		os.Exit(cmdCheck(os.Args[2:]))
+	case "replay":
+		os.Exit(cmdReplay(os.Args[2:]))
+	default:
+		fmt.Fprintln(os.Stderr, "unknown command", os.Args[1])
+		os.Exit(2)
 	}
 }
+
+func repoDir() string {
+	if d := os.Getenv("REPO_DIR"); d != "" {
+		return d
+	}
+	return "/repo"
+}
+
+// expandKey turns "ech.NewConn" into the full package path form.
+func expandKey(k string) string {
+	short := map[string]string{"ech": repoPkgPrefix, "dns": repoPkgPrefix + "/dns", "hpke": repoPkgPrefix + "/internal/hpke", "publish": repoPkgPrefix + "/publish"}
+	if i := strings.Index(k, "."); i > 0 {
+		if p, ok := short[k[:i]]; ok && !strings.Contains(k, "/") {
+			return p + "." + k[i+1:]
+		}
+	}
+	return k
+}
+
+func cmdVC(args []string) {
+	fs := flag.NewFlagSet("vc", flag.ExitOnError)
+	timeout := fs.Int("t", 10, "solver timeout (s)")
+	show := fs.String("show", "", "print the query of obligations whose name contains this")
+	verbose := fs.Bool("v", false, "list all obligations")
+	fs.Parse(args)
+	t0 := time.Now()
+	prog, err := loadProgram(repoDir())
+	if err != nil {
+		fmt.Fprintln(os.Stderr, "load:", err)
+		os.Exit(2)
+	}
+	fmt.Printf("loaded in %.1fs\n", time.Since(t0).Seconds())
+	var results []*FuncResult
+	for _, k := range fs.Args() {
+		r := verifyFunc(prog, expandKey(k))
+		results = append(results, r)
+		for _, e := range r.Errors {
+			fmt.Println("ERROR", e)
+		}
+		for _, d := range r.Drift {
+			fmt.Println("DRIFT", d)
+		}
+		for _, u := range r.Unmodelled {
+			fmt.Println("unmodelled:", u)
+		}
+		for _, u := range r.Assumptions {
+			fmt.Println("assumption:", u)
+		}
+		for _, u := range r.Stores {
+			fmt.Println("store:", u)
+		}
+		fmt.Printf("%s: %d obligations, %d facts, %d decls\n", r.Name, len(r.Obls), len(r.Facts), len(r.Decls))
+	}
+	work := "/verif/work/vc"
+	os.RemoveAll(work)
+	solveAll(results, work, *timeout, *timeout, false, 16, nil)
+	for _, r := range results {
+		n := map[string]int{}
+		for _, o := range r.Obls {
+			n[o.Result]++
+			if o.Result != "unsat" || *verbose {
+				fmt.Printf("  %-8s %-7s %5.2fs %s  (%s) %s\n", o.Result, o.Backend, o.Secs, o.Name, o.Pos, o.File)
+			}
+			if *show != "" && strings.Contains(o.Name, *show) {
+				fmt.Println(r.query(o, true))
+			}
+		}
+		var ks []string
+		for k := range n {
+			ks = append(ks, fmt.Sprintf("%s=%d", k, n[k]))
+		}
+		sort.Strings(ks)
+		fmt.Printf("%s: %s\n", r.Name, strings.Join(ks, " "))
+	}
+	fmt.Printf("total %.1fs\n", time.Since(t0).Seconds())
+}
+
+func cmdCheck(args []string) int  { return 2 }
+func cmdReplay(args []string) int { return 2 }
